@@ -43,7 +43,12 @@ def cases(draw, big=False):
                 storage2=draw(st.sampled_from(["f8", "f4", "i2", "i2b"])),
                 # particles that die after the forcing was evaluated and are removed from the state (what a sparse
                 # output record does) before the tracker asks for the velocity of the survivors; 0 = nobody
-                drop=draw(st.sampled_from([0, 0, 0b0101101, 0b1000000000001, 0b11])))
+                drop=draw(st.sampled_from([0, 0, 0b0101101, 0b1000000000001, 0b11])),
+                # vertical set-up given explicitly in the configuration (Vinfo) and deliberately different from
+                # what the file records: other transform, other critical depth, stretching from parameters
+                vinfo=draw(st.one_of(st.none(), st.none(), st.fixed_dictionaries(dict(
+                    theta_s=st.floats(1.0, 7.0), theta_b=st.floats(0.1, 1.0), Vstretching=st.sampled_from([1, 2, 4]),
+                    hcf=st.floats(0.1, 0.9))))))
 
 
 def build_fields(case, G):
@@ -133,6 +138,8 @@ def ladim_sample(d, fname, sub, case, X, Y, Z, ffile=None, nupdates=1):
     gconf = {"filename": str(fname)}
     if sub is not None:
         gconf["subgrid"] = list(sub)
+    if case.get("Vinfo"):
+        gconf["Vinfo"] = dict(case["Vinfo"])
     modules["grid"] = init_module("grid", gconf, modules)
     fconf = {"filename": str(ffile or fname)}
     if case["scalars"]:
@@ -153,7 +160,7 @@ def ladim_sample(d, fname, sub, case, X, Y, Z, ffile=None, nupdates=1):
     else:
         u, v = force.velocity(X, Y, Z)
     out = dict(u=np.array(u), v=np.array(v), vu=np.array(force.variables["u"])[keep],
-               vv=np.array(force.variables["v"])[keep], keep=keep)
+               vv=np.array(force.variables["v"])[keep], keep=keep, Cs_r=np.array(modules["grid"].Cs_r, float))
     for nm in case["scalars"]:
         out[nm] = np.array(force.variables[nm], float)[keep]
         out["state_" + nm] = np.array(state[nm], float)
@@ -165,6 +172,8 @@ def oracle(case) -> core.CaseResult:
     e2e.quiet()
     res = core.CaseResult()
     jm, im, N = case["jm"], case["im"], case["N"]
+    if case.get("vinfo") and case["field"] == "linear_z":
+        case = dict(case, field="linear")  # the linear-in-depth recipe is built on the file's own levels
     mask = "none" if case["field"] != "noise" else case["mask"]
     h = "flat" if case["field"] == "linear_z" else case["h"]
     G = roms.make_grid(jm, im, N=N, h=h, hval=case["hval"], mask=mask, dx=800.0, levels=case["levels"],
@@ -187,6 +196,13 @@ def oracle(case) -> core.CaseResult:
     res.cls(f"storage_{case['storage']}")
     res.cls(f"field_{case['field']}")
     res.cls("N1" if N == 1 else "N>=2")
+    if case.get("vinfo"):
+        vi = case["vinfo"]
+        vt2 = 3 - case["vt"]  # the transform the file does not record
+        hc2 = vi["hcf"] * float(G["h"].min()) if vt2 == 1 else 0.5 * vi["hcf"] * case["hval"] + 0.1
+        case = dict(case, Vinfo=dict(N=N, hc=hc2, theta_s=vi["theta_s"], theta_b=vi["theta_b"],
+                                     Vstretching=vi["Vstretching"], Vtransform=vt2))
+        res.cls("vertical_setup_from_Vinfo")
     res.cls(f"frame{fr}" + ("_own_file_" + ("other_storage" if st2 != case["storage"] else "same_storage") if two else ""))
     with e2e.workdir() as d:
         times = [scen.T0, scen.T0 + scen.S(4 * DT)]
@@ -214,6 +230,10 @@ def oracle(case) -> core.CaseResult:
         res.cls("velocity_after_dead_removed")
         X, Y, Z = X[got["keep"]], Y[got["keep"]], Z[got["keep"]]
     zr = roms.grid_zr(G)
+    if case.get("Vinfo"):
+        # levels from the requested set-up: the library's stretching curve (judged by C12) through the reference
+        # depth formula with the requested transform and critical depth
+        zr = roms.ref_zr(G["h"], case["Vinfo"]["hc"], got["Cs_r"], case["Vinfo"]["Vtransform"], "rho")
     U0, V0 = np.asarray(dec["u"][fr], float), np.asarray(dec["v"][fr], float)
     scale = max(1.0, float(np.max(np.abs(U0))), float(np.max(np.abs(V0))))
     st_fr = st2 if fr == 1 else case["storage"]
